@@ -4,6 +4,7 @@ use crate::engine::{Ctx, Tier};
 use serde_json::Value;
 
 pub mod c01;
+pub mod c01pipe;
 pub mod c02;
 pub mod c02bp;
 pub mod c02h3;
